@@ -13,6 +13,11 @@ def DictWF (d : Dict) : Prop := (AL.keys d).Nodup
 /-- same content as dictionaries: every key answers the same (insertion order is not content) -/
 def DictEq (a b : Dict) : Prop := ∀ k, AL.get? a k = AL.get? b k
 
+/-- two lists of the same length whose elements are related position by position -/
+inductive ListRel {α β : Type} (R : α → β → Prop) : List α → List β → Prop
+  | nil : ListRel R [] []
+  | cons {a b l1 l2} : R a b → ListRel R l1 l2 → ListRel R (a :: l1) (b :: l2)
+
 /-- the attribute getters `attrs` (all implemented as `self.get(k)`) answer the same on both -/
 def AttrEq (attrs : List String) (a b : Dict) : Prop := ∀ k ∈ attrs, dictGet a k = dictGet b k
 
@@ -41,9 +46,9 @@ structure Glyph.Fresh (t : Glyph) : Prop where
 /-! ### what the rebuilt objects are, field by field -/
 
 /-- `Anchor(glyph=…, anchorDict=d)` without the registry -/
-def Anchor.build (d : Dict) : DictObj := (Anchor.ofDict d (.ok [])).1
+def Anchor.build (d : Dict) : DictObj := { items := Anchor.itemsOf d, parent := true, observed := false }
 /-- `Guideline(…, guidelineDict=d)` without the registry -/
-def Guideline.build (d : Dict) : DictObj := (Guideline.ofDict d (.ok [])).1
+def Guideline.build (d : Dict) : DictObj := { items := Guideline.itemsOf d, parent := true, observed := false }
 
 def Contour.rebuilt (disp : Bool) (c : Contour) : Contour :=
   { ident := c.ident, points := c.points, parent := true, observed := disp }
@@ -83,6 +88,169 @@ structure Glyph.DictsWF (g : Glyph) : Prop where
   image : DictWF g.imageObj.items
   anchors : ∀ a ∈ g.anchors, DictWF a.items
   guidelines : ∀ a ∈ g.guidelines, DictWF a.items
+
+/-! ### equal observable data, glyph level -/
+
+/-- the stream of point-pen calls `glyph.drawPoints` emits for the contours, in either load state -/
+def Glyph.pens (g : Glyph) : List PenRec :=
+  match g.shallow with
+  | some l => l
+  | none => g.contours.map Contour.toPen
+
+def Component.data (c : Component) : Val × Val × Val := (c.base, c.transformation, c.ident)
+
+/-- every public getter of the glyph answers the same on `r` and on `g` -/
+structure Glyph.ObsEq (r g : Glyph) : Prop where
+  name : r.name = g.name
+  unicodes : r.unicodes = g.unicodes
+  width : r.width = g.width
+  height : r.height = g.height
+  note : r.note = g.note
+  lib : DictEq r.lib.items g.lib.items
+  tempLib : DictEq r.tempLib.items g.tempLib.items
+  image : AttrEq imageAttrs r.imageObj.items g.imageObj.items
+  pens : r.pens = g.pens
+  loadState : r.shallow.isSome = g.shallow.isSome
+  components : r.components.map Component.data = g.components.map Component.data
+  anchors : ListRel (fun a b => AttrEq anchorAttrs a.items b.items) r.anchors g.anchors
+  guidelines : ListRel (fun a b => AttrEq guidelineAttrs a.items b.items) r.guidelines g.guidelines
+
+/-- while contours are kept in shallow form the contour list is empty (`_contours == []`) -/
+def Glyph.LoadStateWF (g : Glyph) : Prop := g.shallow.isSome = true → g.contours = []
+
+/-- all identifiers in use in the glyph, in the order a rebuild followed by the full load registers them -/
+def Glyph.usedIds (g : Glyph) : List Val :=
+  (g.regIds ++ (match g.shallow with | some l => l.flatMap PenRec.ids | none => [])).filter (· ≠ pyNone)
+
+/-- every child of the glyph answers the glyph as its parent and is observed iff a dispatcher exists -/
+structure Glyph.ChildrenWired (g : Glyph) : Prop where
+  contours : ∀ c ∈ g.contours, c.parent = true ∧ c.observed = g.disp
+  components : ∀ c ∈ g.components, c.parent = true ∧ c.observed = g.disp
+  anchors : ∀ c ∈ g.anchors, c.parent = true ∧ c.observed = g.disp
+  guidelines : ∀ c ∈ g.guidelines, c.parent = true ∧ c.observed = g.disp
+  lib : g.lib.parent = true ∧ g.lib.observed = g.disp
+  tempLib : g.tempLib.parent = true
+  image : ∀ i, g.image = some i → i.parent = true ∧ i.observed = g.disp
+
+/-! ### layer, layer set, font -/
+
+/-- a new layer: no glyphs yet, nothing failed (name, colour, libs and flags arbitrary) -/
+structure Layer.Fresh (t : Layer) : Prop where
+  glyphs : t.glyphs = []
+  err : t.err = none
+
+/-- the new glyph object `Layer.setDataFromSerialization` makes for every entry -/
+def Layer.newGlyph (disp : Bool) : Glyph := { parent := true, disp := disp }
+
+/-- one rebuilt entry of a layer: the glyph rebuilt into a new glyph of the layer, named by the key, observed -/
+def Layer.rebuiltEntry (disp : Bool) (ng : Val × Glyph) : Val × Glyph :=
+  (ng.1, { Glyph.rebuiltFrom ng.2 (Layer.newGlyph disp) with name := ng.1, observed := disp })
+
+def Glyph.rebuildError (g : Glyph) : Option String := ((Reg.ok []).addAll g.regIds).error
+
+def Layer.rebuiltFrom (ly t : Layer) : Layer :=
+  { t with
+    lib := { items := ly.lib.items, parent := true, observed := t.disp }
+    tempLib := { items := ly.tempLib.items, parent := true, observed := false }
+    color := ly.color
+    glyphs := ly.glyphs.map (Layer.rebuiltEntry t.disp)
+    err := ly.glyphs.foldl (fun e ng => orErr e ng.2.rebuildError) none }
+
+structure Layer.WF (ly : Layer) : Prop where
+  lib : DictWF ly.lib.items
+  tempLib : DictWF ly.tempLib.items
+  /-- `_glyphs` is a dict -/
+  names : (AL.keys ly.glyphs).Nodup
+  /-- … keyed by the glyphs' names -/
+  keyed : ∀ ng ∈ ly.glyphs, ng.2.name = ng.1
+  glyphs : ∀ ng ∈ ly.glyphs, ng.2.DictsWF
+
+structure Layer.ObsEq (r ly : Layer) : Prop where
+  color : r.color = ly.color
+  lib : DictEq r.lib.items ly.lib.items
+  tempLib : DictEq r.tempLib.items ly.tempLib.items
+  glyphs : ListRel (fun a b => a.1 = b.1 ∧ Glyph.ObsEq a.2 b.2) r.glyphs ly.glyphs
+
+/-- a new layer set: no layers, no default, nothing failed -/
+structure LayerSet.Fresh (t : LayerSet) : Prop where
+  layers : t.layers = []
+  default : t.default = pyNone
+  err : t.err = none
+
+/-- the layer `newLayer(name)` makes -/
+def LayerSet.newLayer (disp : Bool) (n : Val) : Layer := { name := n, parent := true, observed := disp, disp := disp }
+
+def LayerSet.rebuiltEntry (disp : Bool) (nl : Val × Layer) : Val × Layer :=
+  (nl.1, Layer.rebuiltFrom nl.2 (LayerSet.newLayer disp nl.1))
+
+def LayerSet.rebuiltFrom (ls t : LayerSet) : LayerSet :=
+  { t with
+    layers := ls.layers.map (LayerSet.rebuiltEntry t.disp)
+    default := if ls.default ∈ AL.keys ls.layers then ls.default else pyNone
+    err := ls.layers.foldl (fun e nl => orErr e (LayerSet.rebuiltEntry t.disp nl).2.err) none }
+
+structure LayerSet.WF (ls : LayerSet) : Prop where
+  names : (AL.keys ls.layers).Nodup
+  layers : ∀ nl ∈ ls.layers, nl.2.WF
+  /-- the default layer is one of the layers (or there is none: a layer set on its own before any layer exists) -/
+  default : ls.default ∈ AL.keys ls.layers ∨ ls.default = pyNone
+
+structure LayerSet.ObsEq (r ls : LayerSet) : Prop where
+  /-- same layers, same order, same names, each with equal observable data -/
+  layers : ListRel (fun a b => a.1 = b.1 ∧ Layer.ObsEq a.2 b.2) r.layers ls.layers
+  default : r.default = ls.default
+
+/-- a new font as far as deserialization can tell: no guidelines, empty registry, info at its defaults -/
+structure Font.Fresh (t : Font) : Prop where
+  guidelines : t.guidelines = []
+  reg : t.reg = .ok []
+  info : ∀ k, dictGet t.info.items k = Info.default k
+
+def Font.rebuiltFrom (f t : Font) : Font :=
+  { t with
+    fmt := f.fmt, maps := f.maps
+    data := { items := f.data.items, parent := true, observed := true }
+    images := { items := f.images.items, parent := true, observed := true }
+    features := { text := f.features.text, parent := true, observed := true }
+    groups := { items := f.groups.items, parent := true, observed := true }
+    kerning := { items := f.kerning.items, parent := true, observed := true }
+    lib := { items := f.lib.items, parent := true, observed := true }
+    tempLib := { items := f.tempLib.items, parent := true, observed := t.tempLib.observed }
+    info := Info.deser (Info.ser none none f.info) (wired t.info)
+    layers := LayerSet.rebuiltFrom f.layers { parent := true, observed := true, disp := true }
+    guidelines := f.guidelines.map (fun a => { Guideline.build a.items with observed := true })
+    reg := (Reg.ok []).addAll (f.guidelines.map dictIdent) }
+
+/-- the stored Info values: every property is present, and a property reads None only if None is its default
+(the generated setter replaces None by the default) -/
+structure InfoWF (i : DictObj) : Prop where
+  dict : DictWF i.items
+  none_is_default : ∀ k ∈ AL.keys Gen.SerialTables.infoProperties, dictGet i.items k = pyNone → Info.default k = pyNone
+
+structure Font.WF (f : Font) : Prop where
+  data : DictWF f.data.items
+  images : DictWF f.images.items
+  groups : DictWF f.groups.items
+  kerning : DictWF f.kerning.items
+  lib : DictWF f.lib.items
+  tempLib : DictWF f.tempLib.items
+  info : InfoWF f.info
+  layers : f.layers.WF
+  guidelines : ∀ a ∈ f.guidelines, DictWF a.items
+
+structure Font.ObsEq (r f : Font) : Prop where
+  fmt : r.fmt = f.fmt
+  maps : r.maps = f.maps
+  data : DictEq r.data.items f.data.items
+  images : DictEq r.images.items f.images.items
+  features : r.features.text = f.features.text
+  groups : DictEq r.groups.items f.groups.items
+  kerning : DictEq r.kerning.items f.kerning.items
+  lib : DictEq r.lib.items f.lib.items
+  tempLib : DictEq r.tempLib.items f.tempLib.items
+  info : ∀ k ∈ AL.keys Gen.SerialTables.infoProperties, dictGet r.info.items k = dictGet f.info.items k
+  layers : r.layers.ObsEq f.layers
+  guidelines : ListRel (fun a b => AttrEq guidelineAttrs a.items b.items) r.guidelines f.guidelines
 
 end Serial
 end DefconModel
